@@ -1321,3 +1321,26 @@ def control_enum_cases(depth, prefix="ce"):
                 ops = ["SEED %d" % (len(cases) % 17)] + [alpha[k] for k in pre + list(seq)] + probes
                 cases.append(("%s-%s%s" % (prefix, pre_name, "-".join(seq)), with_drain(ops)))
     return cases
+
+
+def stream_enum_cases(depth, prefix="se"):
+    """One subscription with an open StreamingPull: EVERY sequence (up to the given length) over publish, streaming ack
+    of the last / first delivery, streaming nack, streaming extensions by 1 s and 30 s, a competing unary pull, expiry
+    steps and closing the request side; the stream is read and the state printed after every step; a drain at the end."""
+    T, Sn = hx(tname("p", "t")), hx(sname("p", "s"))
+    alpha = {
+        "pub": ["PUB %s 1 6d 0" % T], "pub2": ["PUB %s 2 61 0 62 0" % T],
+        "sackL": ["SS 1 - 0 0 1 @0 0 0"], "sackF": ["SS 1 - 0 0 1 ^0 0 0"],
+        "snack": ["SS 1 - 0 0 0 1 @0 1 0"], "smod30": ["SS 1 - 0 0 0 1 @0 1 30"], "smod1": ["SS 1 - 0 0 0 1 ^0 1 1"],
+        "pull": ["PULL %s 10 1" % Sn], "adv5": ["ADV %d" % (5100 * MS)], "adv10": ["ADV %d" % (10100 * MS)],
+        "close": ["SC 1"],
+    }
+    keys = list(alpha)
+    cases = []
+    for d in range(1, depth + 1):
+        for seq in enum_sequences(d, keys):
+            ops = ["SEED %d" % (len(cases) % 13), "CT " + T, "CS %s %s 10 ~" % (Sn, T), "SO 1 %s 10 0 10" % Sn, "SR 1"]
+            for k in seq:
+                ops += alpha[k] + ["SR 1", "STATS " + Sn]
+            cases.append(("%s-%s" % (prefix, "-".join(seq)), with_drain(ops)))
+    return cases
